@@ -16,6 +16,9 @@ as documented).  Excluded => no tls_clienthello/tls_start_client, no HTTP reques
 exactly the client's bytes / the client exactly the server's bytes, in order, incl. those sent before the decision.
 Not excluded => interception starts (tls_clienthello for TLS, requestheaders for HTTP, tcp_start in reverse tcp/tls).
 Same verdict for every segmentation (TLS: first segment >= 3 bytes, the documented minimum).
+Additionally (anchor "ClientTLSLayer ignore_connection passthrough"): for TLS flights the rules do not exclude, a
+user addon's tls_clienthello hook sets data.ignore_connection in 1/6 of the cases; then nothing may be terminated and
+every byte, including the buffered ClientHello, must be relayed unchanged.
 """
 import re
 
@@ -28,7 +31,8 @@ PID = "C19"
 LEVEL = "exploration"
 TECHNIQUE = "Hypothesis structure-aware generation, real NextLayer addon + mode layers vs. reference ignore/allow decision and byte-exact relay"
 RULE = ("mode x destination x first flight (TLS hello with SNI / HTTP with Host spelling / opaque) x ignore/allow regex "
-        "sets derived from the destination forms x eager/lazy x rawtcp x 3 segmentations per case x follow-up traffic; "
+        "sets derived from the destination forms x eager/lazy x rawtcp x 3 segmentations per case x follow-up traffic "
+        "(+ tls_clienthello.ignore_connection set by a user addon for 1/6 of the TLS flights); "
         "non-trivial = rule set non-empty and it discriminates (matches some but not all forms, or flips the decision "
         "relative to the address alone); distinct by (mode, flight, rules, cuts)")
 ASSUMPTIONS = ["lib/driver.py interprets commands like proxy/server.py; server peername == requested address (no DNS)",
